@@ -228,11 +228,70 @@ def run_case(case):
                         'state_when_drained': state.get('state_at_resume'),
                         'final': run.state_nf,
                         'units': run.unit_log[:40]}
+    _early_resume_part(case, base, res, brng, bounds)
     _pause_command_part(case, base, res, brng)
     res['sample'] = sample
     if case.get('_trace'):
         res['trace'] = ec.trace_lines(run)
     return res
+
+
+def _early_resume_part(case, base, res, brng, bounds):
+    """Resume a few units after the pause, while action results and
+    sub-workflow results are still outstanding (the main part resumes only
+    when everything in flight has drained)."""
+    P = case['program']
+    for b in bounds[::3][:6]:
+        state = {}
+        d = brng.randint(1, 6)
+
+        def early(w, state=state):
+            root = w.root()
+            if state.get('root') and root is not None and \
+                    root['state'] == 'PAUSED' and not state.get('resumed'):
+                state['resumed'] = 'early'
+                w.op_resume(root['id'])
+
+        def late(w, state=state):
+            root = w.root()
+            if root is None or root['state'] != 'PAUSED':
+                return False
+            state['resumed'] = state.get('resumed') or 'late'
+            w.op_resume(root['id'])
+            return True
+        run = ec.execute(case, plan=[
+            {'at': b, 'op': _pause_op(state, 'root', brng)},
+            {'at': b + d, 'op': early}], phases=[late, late])
+        res['executions'] += 1
+        _collect(res, run)
+        if run.inconclusive:
+            res['inconclusive'] = 'early resume at %d+%d: %s' % (
+                b, d, run.inconclusive)
+            continue
+        desc = {'pause_at': b, 'resume_after_units': d,
+                'resumed': state.get('resumed')}
+        for v in run.violations:
+            res['violations'].append(dict(v, early_resume=desc))
+        if state.get('resumed') != 'early':
+            continue
+        res['monitor_evaluations']['early-resume'] = \
+            res['monitor_evaluations'].get('early-resume', 0) + 1
+        res['keys'].append([gdirect.shape_hash(P), 'early-resume', b, d])
+        if not case.get('det'):
+            continue
+        if _has_early_failed_join(base.nf) or \
+                _has_early_failed_join(run.nf):
+            df = nf_mod.diff(base.state_nf, run.state_nf)
+        else:
+            df = nf_mod.diff(base.nf, run.nf)
+        stuck = any(x.get('mech') == 'stuck' for x in run.violations)
+        if df and not stuck:
+            res['violations'].append({
+                'prop': 'C10', 'monitor': 'same-as-unpaused',
+                'mech': 'result-differs', 'early_resume': desc,
+                'msg': 'paused at boundary %d, resumed %d units later: '
+                       'result differs from the never-paused run: %s' % (
+                           b, d, df)})
 
 
 def _pause_command_part(case, base, res, brng):
